@@ -1098,7 +1098,7 @@ fn outcome_of_err(e: CommandError) -> Outcome {
     }
 }
 
-pub async fn perform(client: Client, req: Req) -> Outcome {
+pub async fn perform(client: Arc<Client>, req: Req) -> Outcome {
     match req {
         Req::Raw(tok) => match client.raw_command(Command::new("req").argument(tok.as_str())).await {
             Ok(f) => Outcome::Frames(vec![oframe(&f)]),
@@ -1260,8 +1260,9 @@ struct ForeignState {
 }
 
 /// A minimal executor on its own OS thread. It is as strict as the `Future` contract allows: every poll
-/// of a task gets a brand-new waker, a task is polled again only when the waker of its MOST RECENT poll
-/// was woken (wake-ups through older wakers are ignored), and never "just in case".
+/// of a task gets a brand-new waker, wake-ups through the wakers of earlier polls are ignored, and on
+/// every other cycle all tasks are polled whether woken or not (so a future that keeps the waker of its
+/// first poll is left waiting for a wake-up that no longer counts).
 #[derive(Default)]
 pub struct Foreign {
     st: Mutex<ForeignState>,
@@ -1300,6 +1301,7 @@ impl Foreign {
 
     fn serve(self: &Arc<Self>) {
         let mut tasks: Vec<ForeignTaskState> = Vec::new();
+        let mut cycle = 0u64;
         loop {
             let (msgs, woken) = {
                 let mut s = self.st.lock().unwrap();
@@ -1325,6 +1327,12 @@ impl Foreign {
                         t.due = true;
                     }
                 }
+            }
+            // every other cycle every task is polled, woken or not (spurious polls are legal; together with
+            // the fresh waker per poll this makes the wakers of all earlier polls stale)
+            cycle += 1;
+            if cycle % 2 == 0 {
+                tasks.iter_mut().for_each(|t| t.due = true);
             }
             let mut i = 0;
             while i < tasks.len() {
@@ -1561,7 +1569,9 @@ async fn drive(script: &Script, connect: Connect) -> Observation {
     };
 
     let mut root = Some(root);
-    let mut callers: HashMap<u8, Client> = HashMap::new();
+    // even callers issue all their requests through ONE handle (shared by reference between their
+    // request futures), odd callers through a fresh clone of their handle per request
+    let mut callers: HashMap<u8, Arc<Client>> = HashMap::new();
     let mut running: Vec<Running> = Vec::new();
     let mut all_dropped = false;
 
@@ -1580,13 +1590,14 @@ async fn drive(script: &Script, connect: Connect) -> Observation {
         match step {
             Step::Together(_) => {}
             Step::Issue { caller, req } => {
+                let share = |c: &Arc<Client>| if caller % 2 == 0 { Arc::clone(c) } else { Arc::new(Client::clone(c)) };
                 let client = match callers.get(caller) {
-                    Some(c) => Some(c.clone()),
+                    Some(c) => Some(share(c)),
                     None => match (&root, all_dropped) {
                         (Some(r), false) => {
-                            let c = r.clone();
+                            let c = Arc::new(r.clone());
                             callers.insert(*caller, c.clone());
-                            Some(c)
+                            Some(share(&c))
                         }
                         _ => None,
                     },
@@ -1727,7 +1738,7 @@ async fn drive(script: &Script, connect: Connect) -> Observation {
         obs.requests[i].2 = state;
     }
     settle(&h, &done).await;
-    obs.is_closed = callers.values().next().or(root.as_ref()).map(Client::is_connection_closed);
+    obs.is_closed = callers.values().next().map(|c| c.is_connection_closed()).or(root.as_ref().map(Client::is_connection_closed));
     obs.server_idle_at_end = h.lock().unwrap().server.idle_waiting;
     if script.events_polled_last {
         gate.notify_one();
